@@ -68,8 +68,9 @@ type chunkPayloadData struct {
 	missIndicator uint32
 
 	// Partial-reliability parameters used only by sender
-	since        time.Time
-	nSent        uint32 // number of transmission made for this chunk
+	since        time.Time // time of the latest (re)transmission
+	firstSent    time.Time // time of the first transmission: start of the lifetime of timed partial reliability
+	nSent        uint32    // number of transmission made for this chunk
 	_abandoned   bool
 	_allInflight bool // valid only with the first fragment
 
